@@ -524,4 +524,369 @@ theorem aord_reach (v : Variant) (lg : Logger) (slots n : Nat) (prog : Nat → L
     (s : AState) (hr : Reach astep (ainit v lg slots n prog) s) : AOrd s :=
   Reach.inv AOrd (aord_init v lg slots n prog) (fun s t s' ev inv h => astep_aord s s' t ev inv h) s hr
 
+/-! ### completeness: every call is accounted for -/
+
+theorem mkMsg_cfg (lg lg0 : Logger) (h1 : lg.wantTs = lg0.wantTs) (h2 : lg.wantTid = lg0.wantTid)
+    (e : Env) (c : Call) : mkMsg lg e c = mkMsg lg0 e c := by
+  unfold mkMsg; rw [h1, h2]
+
+theorem drop_cons_facts {α : Type} (l : List α) (n : Nat) (x : α) (r : List α) (h : l.drop n = x :: r) :
+    l[n]? = some x ∧ l.drop (n + 1) = r ∧ n < l.length := by
+  have h1 : (l.drop n).head? = some x := by rw [h]; rfl
+  rw [List.head?_drop] at h1
+  have h2 : (l.drop n).tail = r := by rw [h]; rfl
+  rw [List.tail_drop] at h2
+  refine ⟨h1, h2, ?_⟩
+  exact Nat.lt_of_not_le (fun hle => by
+    have := List.drop_of_length_le hle
+    rw [this] at h; cases h)
+
+/-- completeness invariant: every call a producer has started is accounted for -/
+structure ACpl (lg0 : Logger) (prog0 : Nat → List (Env × Call)) (s : AState) : Prop where
+  cfg   : s.lg.wantTs = lg0.wantTs ∧ s.lg.wantTid = lg0.wantTid ∧ s.lg.lowest = lg0.lowest
+  rest  : ∀ i, (prog0 i).drop (s.cnt i) = s.prog i ∧ s.cnt i ≤ (prog0 i).length
+  src   : ∀ q ∈ s.accepted ++ s.dropped, ∃ e c, (prog0 q.src)[q.seq]? = some (e, c) ∧ q.msg = mkMsg lg0 e c
+  busyK : ∀ i q, busyMsg (s.ppc i) = some q →
+            q.src = i ∧ ∃ e c, (prog0 i)[q.seq]? = some (e, c) ∧ q.msg = mkMsg lg0 e c
+  cpl   : ∀ i k e c, k < s.cnt i → (prog0 i)[k]? = some (e, c) → ¬ lg0.lowest > c.level →
+            (∃ q ∈ s.accepted ++ s.dropped, q.src = i ∧ q.seq = k) ∨
+            (∃ q, busyMsg (s.ppc i) = some q ∧ q.seq = k)
+
+theorem acpl_init (v : Variant) (lg : Logger) (slots n : Nat) (prog : Nat → List (Env × Call)) :
+    ACpl lg prog (ainit v lg slots n prog) :=
+  ⟨⟨rfl, rfl, rfl⟩, fun i => by simp [ainit], fun q h => by simp [ainit] at h,
+   fun i q h => by simp [ainit, busyMsg] at h, fun i k e c h => by simp [ainit] at h⟩
+
+theorem producer_acpl (lg0 : Logger) (prog0 : Nat → List (Env × Call)) (s s' : AState) (i : Nat)
+    (inv : ACpl lg0 prog0 s) (h : producerStep s i = some s') : ACpl lg0 prog0 s' := by
+  obtain ⟨cfg, rest, src, busyK, cpl⟩ := inv
+  unfold producerStep at h
+  split at h
+  · rename_i hp
+    split at h
+    · simp at h
+    · rename_i e c tl hprog
+      have hr := rest i
+      rw [hprog] at hr
+      obtain ⟨hget, hdrop, hlt⟩ := drop_cons_facts _ _ _ _ hr.1
+      have hmk := mkMsg_cfg s.lg lg0 cfg.1 cfg.2.1 e c
+      split at h <;> (injection h with h; subst h)
+      · rename_i hlow
+        rw [cfg.2.2] at hlow
+        refine ⟨cfg, ?_, src, ?_, ?_⟩ <;> (simp only [upd]) <;> grind [busyMsg]
+      · refine ⟨cfg, ?_, src, ?_, ?_⟩
+        · simp only [upd]; grind
+        · intro i1 q hq
+          simp only [upd] at hq
+          by_cases hi : i1 = i
+          · subst hi
+            simp only [if_true, busyMsg, Option.some.injEq] at hq
+            subst hq
+            exact ⟨rfl, e, c, hget, hmk⟩
+          · simp only [hi, if_false] at hq; exact busyK i1 q hq
+        · intro i1 k e1 c1 hk hg hl
+          simp only [upd] at hk ⊢
+          by_cases hi : i1 = i
+          · subst hi
+            simp only [if_true] at hk ⊢
+            by_cases hkc : k < s.cnt i1
+            · rcases cpl i1 k e1 c1 hkc hg hl with h | ⟨q, hq, _⟩
+              · left; exact h
+              · rw [hp] at hq; simp [busyMsg] at hq
+            · right; exact ⟨_, rfl, by show s.cnt i1 = k; omega⟩
+          · simp only [hi, if_false] at hk ⊢; exact cpl i1 k e1 c1 hk hg hl
+  · rename_i q hp
+    have hb := busyK i q (by rw [hp]; rfl)
+    -- the message leaves the producer's hands and joins `accepted` or `dropped`
+    have move : ∀ (acc drp : List QMsg), (∀ x, x ∈ s.accepted ++ s.dropped ∨ x = q ↔ x ∈ acc ++ drp) →
+        (∀ q' ∈ acc ++ drp, ∃ e c, (prog0 q'.src)[q'.seq]? = some (e, c) ∧ q'.msg = mkMsg lg0 e c) ∧
+        (∀ i1 k e c, k < s.cnt i1 → (prog0 i1)[k]? = some (e, c) → ¬ lg0.lowest > c.level →
+          (∃ q' ∈ acc ++ drp, q'.src = i1 ∧ q'.seq = k) ∨
+          (∃ q', busyMsg (upd s.ppc i .idle i1) = some q' ∧ q'.seq = k)) := by
+      intro acc drp hmem
+      constructor
+      · intro q' hq'
+        rcases (hmem q').mpr hq' with h | h
+        · exact src q' h
+        · subst h; rw [hb.1]; exact hb.2
+      · intro i1 k e c hk hg hl
+        rcases cpl i1 k e c hk hg hl with ⟨q', hq', hs⟩ | ⟨q', hq', hs⟩
+        · left; exact ⟨q', (hmem q').mp (Or.inl hq'), hs⟩
+        · by_cases hi : i1 = i
+          · subst hi
+            rw [hp] at hq'
+            simp only [busyMsg, Option.some.injEq] at hq'
+            subst hq'
+            left; exact ⟨q, (hmem q).mp (Or.inr rfl), hb.1, hs⟩
+          · right; exact ⟨q', by simp only [upd, hi, if_false]; exact hq', hs⟩
+    have bk : ∀ i1 q', busyMsg (upd s.ppc i .idle i1) = some q' →
+        q'.src = i1 ∧ ∃ e c, (prog0 i1)[q'.seq]? = some (e, c) ∧ q'.msg = mkMsg lg0 e c := by
+      intro i1 q' hq'
+      simp only [upd] at hq'
+      by_cases hi : i1 = i
+      · simp [hi, busyMsg] at hq'
+      · simp only [hi, if_false] at hq'; exact busyK i1 q' hq'
+    split at h
+    · injection h with h; subst h
+      obtain ⟨m1, m2⟩ := move (s.accepted ++ [q]) s.dropped (by intro x; simp only [List.mem_append, List.mem_singleton]; grind)
+      exact ⟨cfg, rest, m1, bk, m2⟩
+    · split at h <;> (injection h with h; subst h)
+      · refine ⟨cfg, rest, src, ?_, ?_⟩
+        · intro i1 q' hq'
+          simp only [upd] at hq'
+          by_cases hi : i1 = i
+          · subst hi
+            simp only [if_true, busyMsg, Option.some.injEq] at hq'
+            subst hq'; exact hb
+          · simp only [hi, if_false] at hq'; exact busyK i1 q' hq'
+        · intro i1 k e c hk hg hl
+          rcases cpl i1 k e c hk hg hl with h | ⟨q', hq', hs⟩
+          · left; exact h
+          · right
+            by_cases hi : i1 = i
+            · subst hi
+              rw [hp] at hq'
+              exact ⟨q', by simp only [upd, if_true]; exact hq', hs⟩
+            · exact ⟨q', by simp only [upd, hi, if_false]; exact hq', hs⟩
+      · obtain ⟨m1, m2⟩ := move s.accepted (s.dropped ++ [q]) (by intro x; simp only [List.mem_append, List.mem_singleton]; grind)
+        exact ⟨cfg, rest, m1, bk, m2⟩
+  · rename_i q hp
+    have hb := busyK i q (by rw [hp]; rfl)
+    have move : ∀ (acc drp : List QMsg), (∀ x, x ∈ s.accepted ++ s.dropped ∨ x = q ↔ x ∈ acc ++ drp) →
+        (∀ q' ∈ acc ++ drp, ∃ e c, (prog0 q'.src)[q'.seq]? = some (e, c) ∧ q'.msg = mkMsg lg0 e c) ∧
+        (∀ i1 k e c, k < s.cnt i1 → (prog0 i1)[k]? = some (e, c) → ¬ lg0.lowest > c.level →
+          (∃ q' ∈ acc ++ drp, q'.src = i1 ∧ q'.seq = k) ∨
+          (∃ q', busyMsg (upd s.ppc i .idle i1) = some q' ∧ q'.seq = k)) := by
+      intro acc drp hmem
+      constructor
+      · intro q' hq'
+        rcases (hmem q').mpr hq' with h | h
+        · exact src q' h
+        · subst h; rw [hb.1]; exact hb.2
+      · intro i1 k e c hk hg hl
+        rcases cpl i1 k e c hk hg hl with ⟨q', hq', hs⟩ | ⟨q', hq', hs⟩
+        · left; exact ⟨q', (hmem q').mp (Or.inl hq'), hs⟩
+        · by_cases hi : i1 = i
+          · subst hi
+            rw [hp] at hq'
+            simp only [busyMsg, Option.some.injEq] at hq'
+            subst hq'
+            left; exact ⟨q, (hmem q).mp (Or.inr rfl), hb.1, hs⟩
+          · right; exact ⟨q', by simp only [upd, hi, if_false]; exact hq', hs⟩
+    have bk : ∀ i1 q', busyMsg (upd s.ppc i .idle i1) = some q' →
+        q'.src = i1 ∧ ∃ e c, (prog0 i1)[q'.seq]? = some (e, c) ∧ q'.msg = mkMsg lg0 e c := by
+      intro i1 q' hq'
+      simp only [upd] at hq'
+      by_cases hi : i1 = i
+      · simp [hi, busyMsg] at hq'
+      · simp only [hi, if_false] at hq'; exact busyK i1 q' hq'
+    injection h with h; subst h
+    obtain ⟨m1, m2⟩ := move s.accepted (s.dropped ++ [q]) (by intro x; simp only [List.mem_append, List.mem_singleton]; grind)
+    have hrel : (release s).lg = s.lg ∧ (release s).prog = s.prog := by
+      unfold release; split <;> exact ⟨rfl, rfl⟩
+    obtain ⟨f1, f2, f3, f4⟩ := release_frame s
+    refine ⟨?_, ?_, ?_, ?_, ?_⟩ <;> dsimp only
+    · rw [hrel.1]; exact cfg
+    · rw [hrel.2, f2]; exact rest
+    · rw [f3]; exact m1
+    · exact bk
+    · rw [f2, f3]; exact m2
+
+theorem acpl_frame (lg0 : Logger) (prog0 : Nat → List (Env × Call)) (s s' : AState)
+    (inv : ACpl lg0 prog0 s) (h1 : s'.ppc = s.ppc) (h2 : s'.cnt = s.cnt)
+    (h3 : s'.accepted = s.accepted) (h4 : s'.dropped = s.dropped) (h5 : s'.prog = s.prog)
+    (h6 : s'.lg.wantTs = s.lg.wantTs ∧ s'.lg.wantTid = s.lg.wantTid ∧ s'.lg.lowest = s.lg.lowest) :
+    ACpl lg0 prog0 s' := by
+  obtain ⟨cfg, rest, src, busyK, cpl⟩ := inv
+  refine ⟨by rw [h6.1, h6.2.1, h6.2.2]; exact cfg, by rw [h2, h5]; exact rest,
+    by rw [h3, h4]; exact src, by rw [h1]; exact busyK, by rw [h1, h2, h3, h4]; exact cpl⟩
+
+theorem writer_frame2 (s s' : AState) (h : writerStep s = some s') :
+    s'.prog = s.prog ∧ s'.lg.wantTs = s.lg.wantTs ∧ s'.lg.wantTid = s.lg.wantTid ∧
+    s'.lg.lowest = s.lg.lowest := by
+  unfold writerStep at h
+  have hr : (release s).prog = s.prog ∧ (release s).lg = s.lg := by
+    unfold release; split <;> exact ⟨rfl, rfl⟩
+  repeat' split at h
+  all_goals first
+    | (simp at h; done)
+    | (injection h with h; subst h; first | exact ⟨rfl, rfl, rfl, rfl⟩ | exact ⟨hr.1, by rw [hr.2], by rw [hr.2], by rw [hr.2]⟩)
+
+theorem destroy_frame2 (s s' : AState) (h : destroyStep s = some s') :
+    s'.prog = s.prog ∧ s'.lg.wantTs = s.lg.wantTs ∧ s'.lg.wantTid = s.lg.wantTid ∧
+    s'.lg.lowest = s.lg.lowest := by
+  unfold destroyStep at h
+  repeat' split at h
+  all_goals first
+    | (simp at h; done)
+    | (injection h with h; subst h; exact ⟨rfl, rfl, rfl, rfl⟩)
+
+theorem astep_acpl (lg0 : Logger) (prog0 : Nat → List (Env × Call)) (s s' : AState) (t : Tok)
+    (ev : List String) (inv : ACpl lg0 prog0 s) (h : astep s t = some (s', ev)) : ACpl lg0 prog0 s' := by
+  unfold astep at h
+  split at h
+  · cases hw : writerStep s with
+    | none => simp [hw] at h
+    | some s1 =>
+      simp only [hw, Option.map_some, Option.some.injEq, Prod.mk.injEq] at h
+      obtain ⟨a, b, c, d⟩ := writer_frame s s1 hw
+      obtain ⟨e, f⟩ := writer_frame2 s s1 hw
+      rw [← h.1]; exact acpl_frame lg0 prog0 s s1 inv a b c d e f
+  · split at h
+    · split at h
+      · injection h with h; injection h with h1 _; subst h1
+        exact acpl_frame lg0 prog0 s _ inv rfl rfl rfl rfl rfl ⟨rfl, rfl, rfl⟩
+      · cases hw : destroyStep s with
+        | none => simp [hw] at h
+        | some s1 =>
+          simp only [hw, Option.map_some, Option.some.injEq, Prod.mk.injEq] at h
+          obtain ⟨a, b, c, d⟩ := destroy_frame s s1 hw
+          obtain ⟨e, f⟩ := destroy_frame2 s s1 hw
+          rw [← h.1]; exact acpl_frame lg0 prog0 s s1 inv a b c d e f
+    · split at h
+      · cases hw : producerStep s (t.tid - 2) with
+        | none => simp [hw] at h
+        | some s1 =>
+          simp only [hw, Option.map_some, Option.some.injEq, Prod.mk.injEq] at h
+          rw [← h.1]; exact producer_acpl lg0 prog0 s s1 _ inv hw
+      · simp at h
+
+theorem acpl_reach (v : Variant) (lg : Logger) (slots n : Nat) (prog : Nat → List (Env × Call))
+    (s : AState) (hr : Reach astep (ainit v lg slots n prog) s) : ACpl lg prog s :=
+  Reach.inv (ACpl lg prog) (acpl_init v lg slots n prog)
+    (fun s t s' ev inv h => astep_acpl lg prog s s' t ev inv h) s hr
+
+
+/-! ### progress of destroy -/
+
+def dWeight : DPc → Nat
+  | .notCalled => 3 | .sending => 2 | .joining => 1 | .done => 0
+
+def wStage : WPc → Nat
+  | .holding _ => 2 | .wrote _ => 1 | _ => 0
+
+/-- work left until destroy returns -/
+def destroyMeasure (s : AState) : Nat := 4 * dWeight s.dpc + 3 * s.queue.length + wStage s.wpc
+
+/-- while destroy is in progress and the harness gate is open, some thread can take a step
+that strictly decreases the measure -/
+theorem destroy_progress_step (hs0 : List Handler) (s : AState) (inv : AInv hs0 s)
+    (hd : s.dpc = .sending ∨ s.dpc = .joining) (hg : s.gate = true) (hslots : 1 ≤ s.slots) :
+    ∃ t s', astep s t = some (s', []) ∧ destroyMeasure s' < destroyMeasure s := by
+  have aw : ∀ s', writerStep s = some s' → astep s ⟨0, .none⟩ = some (s', []) := by
+    intro s' h; simp [astep, h]
+  have ad : ∀ s', destroyStep s = some s' → astep s ⟨1, .none⟩ = some (s', []) := by
+    intro s' h; simp [astep, h]
+  cases hw : s.wpc with
+  | holding q =>
+    refine ⟨⟨0, .none⟩, { s with lg := { s.lg with handlers := stepHandlers q.msg s.lg.handlers },
+                                  written := s.written ++ [q], wpc := .wrote q }, aw _ ?_, ?_⟩
+    · simp [writerStep, hw, hg, inv.fixed, writeAll_fixed]
+    · simp [destroyMeasure, wStage, hw]
+  | wrote q =>
+    refine ⟨⟨0, .none⟩, { release s with wpc := .reading }, aw _ ?_, ?_⟩
+    · simp [writerStep, hw]
+    · simp only [destroyMeasure, wStage, hw]
+      unfold release; split <;> simp
+  | reading =>
+    cases hq : s.queue with
+    | cons x rest =>
+      cases x with
+      | some q =>
+        refine ⟨⟨0, .none⟩, { s with queue := rest, wpc := .holding q }, aw _ ?_, ?_⟩
+        · simp [writerStep, hw, hq]
+        · simp [destroyMeasure, wStage, hw, hq]; omega
+      | none =>
+        refine ⟨⟨0, .none⟩, { s with queue := rest, wpc := .exited }, aw _ ?_, ?_⟩
+        · simp [writerStep, hw, hq]
+        · simp [destroyMeasure, wStage, hw, hq]
+    | nil =>
+      have hsend : s.dpc = .sending := by
+        rcases hd with h | h
+        · exact h
+        · rcases inv.ph1 h with ⟨_, ms, hms⟩ | ⟨he, _⟩
+          · rw [hq] at hms; simp at hms
+          · rw [hw] at he; cases he
+      refine ⟨⟨1, .none⟩, { s with queue := s.queue ++ [none], dpc := .joining }, ad _ ?_, ?_⟩
+      · have : s.queue.length < s.slots := by rw [hq]; simp; omega
+        simp [destroyStep, hsend, this]
+      · simp [destroyMeasure, dWeight, hsend, hq, hw, wStage]
+  | exited =>
+    have hjoin : s.dpc = .joining := by
+      rcases hd with h | h
+      · exact absurd hw (inv.ph0 (Or.inr h)).2
+      · exact h
+    refine ⟨⟨1, .none⟩, { s with dpc := .done }, ad _ ?_, ?_⟩
+    · simp [destroyStep, hjoin, hw]
+    · simp [destroyMeasure, dWeight, hjoin]
+
+/-- once destroy has been called no step of any thread increases the measure (the only
+steps that leave it unchanged are destroy's retry on a full channel and the harness gate) -/
+theorem destroy_measure_mono (hs0 : List Handler) (s s' : AState) (t : Tok) (ev : List String)
+    (inv : AInv hs0 s) (hd : s.dpc ≠ .notCalled) (h : astep s t = some (s', ev)) :
+    destroyMeasure s' ≤ destroyMeasure s := by
+  have hp := (producersDone_iff s).mp (inv.pdone hd)
+  unfold astep at h
+  split at h
+  · cases hw : writerStep s with
+    | none => simp [hw] at h
+    | some s1 =>
+      simp only [hw, Option.map_some, Option.some.injEq, Prod.mk.injEq] at h
+      rw [← h.1]
+      unfold writerStep at hw
+      split at hw
+      · rename_i hwp
+        split at hw
+        · simp at hw
+        · rename_i q rest hq
+          injection hw with hw; subst hw
+          simp [destroyMeasure, wStage, hwp, hq]; omega
+        · rename_i rest hq
+          injection hw with hw; subst hw
+          simp [destroyMeasure, wStage, hwp, hq]; omega
+      · rename_i q hwp
+        split at hw
+        · simp at hw
+        · rw [inv.fixed, writeAll_fixed] at hw
+          simp only at hw
+          injection hw with hw; subst hw
+          simp [destroyMeasure, wStage, hwp]
+      · rename_i q hwp
+        injection hw with hw; subst hw
+        simp only [destroyMeasure, wStage, hwp]
+        unfold release; split <;> simp
+      · simp at hw
+  · split at h
+    · split at h
+      · injection h with h; injection h with h1 _; subst h1
+        exact Nat.le_refl _
+      · cases hw : destroyStep s with
+        | none => simp [hw] at h
+        | some s1 =>
+          simp only [hw, Option.map_some, Option.some.injEq, Prod.mk.injEq] at h
+          rw [← h.1]
+          unfold destroyStep at hw
+          split at hw
+          · rename_i hdd; exact absurd hdd hd
+          · rename_i hdd
+            split at hw
+            · injection hw with hw; subst hw
+              simp [destroyMeasure, dWeight, hdd]; omega
+            · rw [inv.fixed] at hw
+              simp only at hw
+              injection hw with hw; subst hw
+              exact Nat.le_refl _
+          · rename_i hdd
+            split at hw
+            · injection hw with hw; subst hw
+              simp [destroyMeasure, dWeight, hdd]
+            · simp at hw
+          · simp at hw
+    · split at h
+      · rename_i hi
+        have := hp _ hi
+        have hidle : s.ppc (t.tid - 2) = .idle := by
+          cases hx : s.ppc (t.tid - 2) <;> simp [hx, isIdle] at this ⊢
+        simp [producerStep, hidle, this.1] at h
+      · simp at h
 end MgProof.C16
